@@ -178,8 +178,8 @@ def check(prop, tier, seed):
           % (prop, tier, seed, m["evaluations"], distinct, m["shards"], time.time() - t0, verdict))
     for mech, c in seen_known.items():
         k = known_mech[mech]
-        print("KNOWN-FINDING: property=%s %s [%s, observed %d time(s) in stored witnesses]"
-              % (prop, k["what_fails"], k.get("id", mech), c))
+        print("KNOWN-FINDING: property=%s %s [%s, observed %d time(s) in this run]"
+              % (prop, k["what_fails"], k.get("id", mech), m["counters"].get("mech:" + mech, c)))
     if real:
         shown = set()
         for v in real:
